@@ -4,7 +4,7 @@
 (* the specification.  A trace is one object (its residue sequence) and    *)
 (* the queries made on it with their replies.                              *)
 (***************************************************************************)
-EXTENDS TraceBase, Patterning, Composition, Profiles, ObjectFunctions
+EXTENDS TraceBase, Patterning, Composition, Profiles, ObjectFunctions, Titration
 VARIABLES t, l, verdict
 vars == <<t, l, verdict>>
 
@@ -113,6 +113,26 @@ JudgePhos(seq, e) ==
               THEN "distribution-values"
          ELSE OK
 
+\* ---- C09 ----
+PowTab(j) == (CHOOSE pr \in SetOf(Input.pow10) : pr[1] = j)[2]
+\* every table entry is verified once (constant-level, evaluated at start-up): T^10 <= 10^(j+200) < (T+1)^10
+PowTableVerified == "pow10" \in DOMAIN Input => \A pr \in SetOf(Input.pow10) : Pow10Checked(pr[2], pr[1])
+JudgePH(seq, e) ==
+  IF e.q = "pi" THEN
+     (IF e.exc THEN "isoelectric-point-raised-or-did-not-terminate"
+      ELSE IF NTitratable(seq) = 0 THEN (IF REq(RFromFx(e.r), RFromInt(7)) THEN OK ELSE "isoelectric-point-without-titratable-residues")
+      ELSE LET fr == [r \in Titratable |-> RFromFx(e.frac[r])] IN
+           IF RLe(RAbs(MeanTitratableCharge(seq, fr)), RAdd(RFrac(2, 100), Eps9)) THEN OK ELSE "isoelectric-point-does-not-neutralise")
+  ELSE LET ph == RFromFx(e.ph)
+           inrange == RLe(RZero, ph) /\ RLe(ph, RFromInt(14)) IN
+       IF ~inrange THEN (IF e.exc THEN OK ELSE "pH-outside-[0,14]-accepted")
+       ELSE IF e.exc THEN "pH-query-raised"
+       ELSE IF e.grid /\ ~PowTableVerified THEN "machinery:pow10-table"
+       ELSE LET fr == IF e.grid THEN [r \in Titratable |-> IF r \in TitratePos THEN FracPos(PowTab(e.j[r])) ELSE FracNeg(PowTab(e.j[r]))]
+                      ELSE [r \in Titratable |-> RFromFx(e.frac[r])] IN
+            IF ~FracsOK(fr) THEN "machinery:fractions"
+            ELSE IF RClose(RFromFx(e.r), PHParam(e.name, seq, fr)) THEN OK ELSE "ph-" \o e.name
+
 Judge(seq, e) ==
   LET x == ChargePattern(seq)
       r == RFromFx(e.r)
@@ -133,6 +153,7 @@ Judge(seq, e) ==
        [] e.q \in {"linear", "lincomp"} -> JudgeLinear(seq, e)
        [] e.q \in {"alphabetsize", "alphabetmap", "reduce", "userreduce"} -> JudgeAlphabet(seq, e)
        [] e.q = "complexity" -> JudgeComplexity(seq, e)
+       [] e.q \in {"ph", "pi"} -> JudgePH(seq, e)
        [] e.q \in {"phosphoseq", "stysites", "kappaphos", "phosdist"} -> JudgePhos(seq, e)
        [] e.q = "param"  -> IF e.name \notin ScalarParams THEN "machinery:unknown-param"
                             ELSE IF RClose(r, Param(e.name, seq)) THEN OK ELSE "param-" \o e.name
